@@ -682,7 +682,7 @@ func (b Bind) clone() Bind {
 }
 
 func nameMatches(pat, have string) bool {
-	if pat == have || pat == "" {
+	if pat == have || pat == "" || pat == "_" {
 		return true
 	}
 	if i := strings.Index(have, "["); i > 0 && !strings.HasPrefix(have, "[") && !strings.Contains(pat, "[") {
